@@ -117,9 +117,9 @@ func LoadCorpus(repo string) (*Corpus, error) {
 				sup.Get("addresses").A[0].Set("coords", &JV{K: 'o', M: []JM{{"lat", &JV{K: 'n', S: "40.416775"}}, {"lon", &JV{K: 'n', S: "-3.70379"}}}})
 				d := &Doc{Name: "synthetic/es-invoice-coordinates", Src: v.Encode(nil), IsEnv: base.IsEnv}
 				buildDoc(d, len(c.Docs))
+				c.Docs = append(c.Docs, d)
+				c.byName[d.Name] = d
 				if d.Err == "" && bytes.Contains(d.Env, []byte("40.416775")) {
-					c.Docs = append(c.Docs, d)
-					c.byName[d.Name] = d
 					c.Valid = append(c.Valid, d)
 					c.Invoices = append(c.Invoices, d)
 				}
@@ -152,9 +152,9 @@ func LoadCorpus(repo string) (*Corpus, error) {
 					mk(2, `{"categories":[{"code":"VAT","rates":[{"base":"500.00","percent":"10.0%"},{"base":"200.00","percent":"21.0%"}]},{"code":"IRPF","retained":true,"rates":[{"base":"700.00","percent":"15.0%"}]}]}`))
 				d := &Doc{Name: "synthetic/es-payment-mixed-tax", Src: v.Encode(nil), IsEnv: base.IsEnv}
 				buildDoc(d, len(c.Docs))
+				c.Docs = append(c.Docs, d)
+				c.byName[d.Name] = d
 				if d.Err == "" {
-					c.Docs = append(c.Docs, d)
-					c.byName[d.Name] = d
 					c.Valid = append(c.Valid, d)
 				}
 			}
